@@ -37,6 +37,8 @@ pub struct OpKinds
     pub rm_table: bool,
     pub rules: bool,
     pub rm_leaf: bool,
+    /// replace an editable file by a version with an OLD modification time (restored from a backup)
+    pub backdate: bool,
 }
 
 impl OpKinds
@@ -49,7 +51,7 @@ impl OpKinds
     pub fn all() -> OpKinds
     {
         OpKinds { edit: true, build: true, clean: true, tamper: true, delete: true, drop_cache: true, rm_ruler: true,
-            rm_history: true, rm_cache: true, rm_table: true, rules: true, rm_leaf: false }
+            rm_history: true, rm_cache: true, rm_table: true, rules: true, rm_leaf: false, backdate: false }
     }
 }
 
@@ -85,6 +87,7 @@ pub enum Op
     RmTable,
     Rules { k: usize },
     RmLeaf { path: String },
+    Backdate { path: String, val: usize },
 }
 
 impl Op
@@ -105,6 +108,7 @@ impl Op
             Op::RmTable => "rm(.ruler/current_file_states)".to_string(),
             Op::Rules { k } => format!("rules({})", k),
             Op::RmLeaf { path } => format!("rm_leaf({})", path),
+            Op::Backdate { path, val } => format!("restore_old({},{})", path, val),
         }
     }
 }
@@ -149,8 +153,35 @@ fn ghost_digest(g: &BTreeMap<GhostKey, Vec<Bytes>>) -> Vec<u8>
     h.finish().to_vec()
 }
 
+/// rank of every file's mtime (and of every remembered timestamp) in the order of all
+/// timestamps: needed in the key when timestamps can go backwards (backdated files), because
+/// then a mutant that compares timestamps with < or <= can tell apart states that the
+/// equality-only partition merges
+pub fn order_signature(fs: &Fs) -> Vec<u8>
+{
+    let table = decode_table(fs);
+    let mut stamps: BTreeSet<u64> = BTreeSet::new();
+    for (_p, n) in fs.map.iter() { if let Node::File(f) = n { stamps.insert(f.mtime); } }
+    if let Some(Some(t)) = &table { for (_p, st) in t.iter() { stamps.insert(st.timestamp); } }
+    let rank: BTreeMap<u64, u32> = stamps.iter().enumerate().map(|(i, x)| (*x, i as u32)).collect();
+    let mut out = vec![];
+    for (p, n) in fs.map.iter() { if let Node::File(f) = n { out.extend_from_slice(p.as_bytes()); out.extend_from_slice(&rank[&f.mtime].to_le_bytes()); } }
+    if let Some(Some(t)) = &table { for (p, st) in t.iter() { out.extend_from_slice(p.as_bytes()); out.extend_from_slice(&rank[&st.timestamp].to_le_bytes()); } }
+    out
+}
+
 impl State
 {
+    pub fn key_ordered(&self, use_ghost: bool, ordered: bool) -> [u8; 16]
+    {
+        if !ordered { return self.key(use_ghost); }
+        let mut extra = vec![self.variant as u8];
+        if use_ghost { extra.extend_from_slice(&ghost_digest(&self.ghost)); }
+        extra.extend_from_slice(&order_signature(&self.fs));
+        if let Some(b) = &self.fs_b { extra.extend_from_slice(&canon_key(b, &order_signature(b))); }
+        canon_key(&self.fs, &extra)
+    }
+
     pub fn key(&self, use_ghost: bool) -> [u8; 16]
     {
         let mut extra = vec![self.variant as u8];
@@ -243,6 +274,17 @@ pub fn enabled_ops(sc: &Scenario, st: &State) -> Vec<Op>
         for (p, _) in &sc.edits
         {
             if st.fs.is_file(p) { out.push(Op::RmLeaf { path: p.clone() }); }
+        }
+    }
+    if k.backdate
+    {
+        for (p, dom) in &sc.edits
+        {
+            let cur = st.fs.read(p);
+            for (i, v) in dom.iter().enumerate()
+            {
+                if cur.as_ref() != Some(v) { out.push(Op::Backdate { path: p.clone(), val: i }); }
+            }
         }
     }
     out
@@ -1101,6 +1143,12 @@ pub fn apply(ctx: &Ctx, st: &State, op: &Op, stats: &mut Stats, findings: &mut V
             each(&mut ns, &|fs| user_write(fs, path, v.clone()));
         },
         Op::RmLeaf { path } => each(&mut ns, &|fs| user_remove(fs, path)),
+        Op::Backdate { path, val } =>
+        {
+            // the file comes back with a modification time older than anything ruler has seen
+            let v = sc.edits.iter().find(|(p, _)| p == path).expect("edit path").1[*val].clone();
+            each(&mut ns, &|fs| { fs.tick(); fs.put(path, v.clone(), 1 + *val as u64, None); fs.tick(); });
+        },
         Op::Tamper { path } => each(&mut ns, &|fs| user_write(fs, path, bytes(TAMPER_CONTENT))),
         Op::Delete { path } => each(&mut ns, &|fs| user_remove(fs, path)),
         Op::DropCache { name } => each(&mut ns, &|fs| user_remove(fs, &format!("{}/{}", CACHE_DIR, name))),
@@ -1207,6 +1255,10 @@ pub struct HistCfg
     pub threads: usize,
     /// run the C10 probes at every reached state
     pub c10_probes: bool,
+    /// state key keeps the *order* of all timestamps (robust against code that compares
+    /// timestamps with < or <=); false = only their equality partition (sound for code that
+    /// tests equality only; smaller state space, lets small alphabets saturate)
+    pub ordered_key: bool,
 }
 
 pub struct HistResult
@@ -1255,7 +1307,7 @@ pub fn run_hist(cfg: &HistCfg) -> HistResult
         count: AtomicUsize::new(0),
     });
     let init = initial_state(&cfg.scenario, cfg.paired);
-    shared.insert(init.key(cfg.use_ghost_in_key));
+    shared.insert(init.key_ordered(cfg.use_ghost_in_key, cfg.ordered_key));
     shared.count.store(1, Ordering::SeqCst);
     let mut frontier = vec![init];
     let mut levels = vec![1u64];
@@ -1289,9 +1341,10 @@ pub fn run_hist(cfg: &HistCfg) -> HistResult
             let deadline = cfg.deadline;
             let max_states = cfg.max_states;
             let c10 = cfg.c10_probes;
+            let ordered = cfg.ordered_key;
             handles.push(std::thread::Builder::new().stack_size(16 << 20).spawn(move ||
             {
-                expand_worker(items, idx, shared, sc, clock, or, use_ghost, deadline, max_states, c10, probes_only);
+                expand_worker(items, idx, shared, sc, clock, or, use_ghost, deadline, max_states, c10, probes_only, ordered);
             }).unwrap());
         }
         for h in handles
@@ -1337,7 +1390,7 @@ pub fn run_hist(cfg: &HistCfg) -> HistResult
 }
 
 fn expand_worker(items: Arc<Vec<State>>, idx: Arc<AtomicUsize>, shared: Arc<Shared>, sc: Scenario, clock: ClockModel, or: Oracles,
-                 use_ghost: bool, deadline: Instant, max_states: usize, c10: bool, probes_only: bool)
+                 use_ghost: bool, deadline: Instant, max_states: usize, c10: bool, probes_only: bool, ordered: bool)
 {
     use std::cell::RefCell;
     use std::rc::Rc;
@@ -1427,7 +1480,7 @@ fn expand_worker(items: Arc<Vec<State>>, idx: Arc<AtomicUsize>, shared: Arc<Shar
                         {
                             *cur_op.borrow_mut() = oi;
                             let ns = apply(&ctx, st, op, &mut stats, &mut findings);
-                            if shared.insert(ns.key(use_ghost))
+                            if shared.insert(ns.key_ordered(use_ghost, ordered))
                             {
                                 shared.count.fetch_add(1, Ordering::SeqCst);
                                 shared.next.lock().unwrap().push(ns);
